@@ -54,6 +54,9 @@ class Node:
     def feed_seq(self, raws, pipes):
         chip, o, s = self.chip, self.o, self.s
         self.restore_master()
+        self.k = getattr(self, "k", 0) + 1
+        if self.role != "routing":
+            o.multicast_relay = bool(self.k % 3 == 0)
         if self.role == "master":
             o.dhcp_dict = {5: 0o1, 9: 0o21}      # every sequence meets the same table (earlier vectors may have filled a parent)
         if chip.rx or not chip.listening_now():
@@ -91,6 +94,9 @@ class Node:
     def feed(self, raw, pipe):
         chip, o, s = self.chip, self.o, self.s
         self.restore_master()
+        self.k = getattr(self, "k", 0) + 1
+        if self.role != "routing":
+            o.multicast_relay = bool(self.k % 3 == 0)       # every third vector meets a relaying node
         if chip.rx or not chip.listening_now():      # a previous (already reported) failure left the node deaf or clogged
             chip.rx.clear()
             o.listen = True
